@@ -211,6 +211,8 @@ def make_detector(d, idx, complex_fields=False):
         d["axes"] = tuple(d["axes"])
     phasor = kind in ("phasor", "phasor_poynting", "closed_phasor")
     dtype = d.pop("dtype", None)
+    if isinstance(dtype, str):
+        dtype = {"f32": jnp.float32, "f64": jnp.float64, "c64": jnp.complex64, "c128": jnp.complex128}[dtype]
     if dtype is None:
         dtype = jnp.complex128 if (phasor or (complex_fields and kind == "field")) else jnp.float64
     cls = {
